@@ -714,6 +714,19 @@ func (w *world) randomReqSpec(rng *mrand.Rand, prop string) reqSpec {
 			rs.hdrs = append(rs.hdrs, [2]string{"Access-Control-Request-Method", []string{"GET", "POST", "DELETE"}[rng.Intn(3)]})
 		}
 	}
+	// a well-formed CORS preflight, as browsers send it ahead of a cross-origin request (without and with cookies): it is a
+	// request like any other to the gate
+	if (rs.method == "OPTIONS" && rng.Intn(2) == 0) || (rs.method == "" && rng.Intn(12) == 0) {
+		rs.method = "OPTIONS"
+		if rs.origin == "" {
+			rs.origin = []string{"https://app.test", "https://evil.test", "https://spa.example.org"}[rng.Intn(3)]
+		}
+		rs.hdrs = append(rs.hdrs, [2]string{"Access-Control-Request-Method", []string{"GET", "POST", "DELETE", "PUT"}[rng.Intn(4)]})
+		if rng.Intn(2) == 0 {
+			rs.hdrs = append(rs.hdrs, [2]string{"Access-Control-Request-Headers", "authorization, content-type"})
+		}
+		T.stat("handler.cors-preflights")
+	}
 	return rs
 }
 
